@@ -68,3 +68,14 @@ Lemma parse_flags_are_volatile : parse_flags_volatile = true.
 Proof. reflexivity. Qed.
 Lemma parse_prologue_does_not_allocate : parse_prologue_allocating_calls = nil.
 Proof. reflexivity. Qed.
+
+(* the places compared by the validity test of the goto cache and the place the completer looks at *)
+Lemma cache_indexes_ok : forall k p d,
+  cache_index_now k p d = k + 1 - d /\ cache_index_then k p d = p + 1 - d /\ completion_place k d = k + 1 - d.
+Proof. intros k p d. unfold cache_index_now, cache_index_then, completion_place. repeat split; lia. Qed.
+
+(* both lookahead filters of build_new_set test the next token and exempt situations that `error' can follow *)
+From Coq Require Import String.
+Lemma la_filters_same : la_filter_scan = la_filter_complete /\
+  In "grammar->term_error_num"%string la_filter_scan /\ In "lookahead_term_num"%string la_filter_scan.
+Proof. vm_compute. repeat split; auto. Qed.
